@@ -70,6 +70,15 @@ def V_int(m, theta, order=None):
     return Vi
 
 
+def V_at(m, x, theta, order=None):
+    """State-change matrix at state x (magnitudes may be expressions of the states)."""
+    V = ir.reference_float(m, [float(v) for v in x], 0.0, theta, order)["V"]
+    Vi = np.rint(V).astype(np.int64)
+    if not np.array_equal(Vi, V):
+        return V
+    return Vi
+
+
 def rates_at(m, x, t, theta, order=None):
     return ir.reference_float(m, [float(v) for v in x], float(t), theta, order)["rates"]
 
@@ -83,8 +92,9 @@ def within(x, lims):
     return True
 
 
-def check_path(key, case, X, counts, T, x0, t0, V, exact):
-    """Invariant over one raw path; returns (n_steps, set of fired event indices)."""
+def check_path(key, case, X, counts, T, x0, t0, V, exact, V_of=None):
+    """Invariant over one raw path; returns (n_steps, set of fired event indices).
+    V_of(x): state-change matrix at state x, for models whose magnitudes depend on the state (V is then only its shape)."""
     X = np.asarray(X)
     T = np.asarray(T, float)
     n_s, n_e = V.shape
@@ -112,7 +122,10 @@ def check_path(key, case, X, counts, T, x0, t0, V, exact):
         if max(float(np.abs(X.astype(float)).max()), float(np.abs(counts).max()) * max(1.0, float(np.abs(V).max()))) >= 2.0 ** 51:
             raise Inconclusive("populations beyond exactly representable integers")
         dX = np.diff(X.astype(float), axis=0)
-        want = counts.dot(V.T.astype(float))
+        if V_of is None:
+            want = counts.dot(V.T.astype(float))
+        else:
+            want = np.array([np.asarray(V_of(X[k]), float).dot(counts[k]) for k in range(steps)])
         if not np.array_equal(dX, want):
             k = int(np.argwhere((dX != want).any(axis=1))[0][0])
             raise PropertyViolation(key + "/state-change", "step %d: state change %s but V*counts = %s (counts %s)" % (
